@@ -197,6 +197,8 @@ def consumer_probes(ctx: Ctx, rng) -> None:
         ctx.count("consumer:" + label)
 
     for _ in range(ctx.n(3, 12)):
+        if ctx.out_of_time():
+            break
         c = lw.Circuit(4)
         c.bs(0, 1, reflectivity=0.4)
         c.ps(1, 0.3)
@@ -299,6 +301,8 @@ def run(ctx: Ctx) -> None:
     N = ctx.n(150, 4000)
     rng = ctx.rng
     for i in range(N):
+        if ctx.out_of_time():
+            break
         prog, ids = gen_history(ctx, rng)
         probs = run_case(ctx, prog, ids)
         adds = [op for op in prog if op[0] == "add"]
